@@ -294,6 +294,56 @@ def run(chk):
     import rules.C07 as c07
     c07.run(core.Only(chk, {"C07.bracket", "C07.payload", "C07.hdr", "C07.flip", "C07.sib", "C07.blocks", "C07.size"}))
 
+    # ---- C08.exists: "no such file" is decided by opening the file, not by a failed index
+    r_ex = chk.rule("C08.exists", "OutputStream.cpp decides between starting a new unified restart file and continuing an existing one on whether the file can be OPENED: Open::Restart::read returns the null pointer only under a failed stream-open test, builds the ERst index outside any try block, and no function of OutputStream.cpp has a catch handler that completes normally.  An index error of an existing file (a header cut short by a crash) must propagate: treated as 'no such file' it makes openUnified start a new file over the earlier report steps", floor=3)
+    osf = [f for f in fx.fns if f.get("body") and f["file"].endswith("OutputStream.cpp")]
+    rd = [f for f in osf if f["n"] == "read" and "Restart" in f["q"]]
+    if len(rd) != 1:
+        raise core.AnalysisBroken("OutputStream.cpp: Open::Restart::read not found (%d)" % len(rd))
+    rd = rd[0]
+    n_try = 0
+    for f in osf:
+        for t in walk(f["body"]):
+            if t.get("k") != "Try":
+                continue
+            n_try += 1
+            for h in t.get("handlers") or []:
+                hb = h.get("body") if isinstance(h, dict) else None
+                sts = stmt_list(hb) if isinstance(hb, dict) else []
+                if not sts or sts[-1]["k"] != "Throw":
+                    chk.violation(r_ex, "handler:%s" % f["n"], "%s: a catch handler completes without throwing: an error while reading an existing result file is turned into a normal result" % f["q"], f["file"], t["l"])
+    chk.instance(r_ex, "handlers", sample=dict(functions=len(osf), try_blocks=n_try))
+    nulls = []
+    for n in walk(rd["body"]):
+        if n["k"] == "Return" and (n.get("e") is None or re.fullmatch(r"(std::unique_ptr<[^{}]*>)?\{\{?\}?\}|nullptr|std::unique_ptr<[^()]*>\(\)", show(strip(n["e"])).replace("Opm::EclIO::", "")) is not None):
+            nulls.append(n)
+    par_r = None
+    from verif import cow as _cow
+    par_r = _cow.parent_map(rd)
+    okn = bool(nulls)
+    for n in nulls:
+        cur = n
+        cond = None
+        while id(cur) in par_r:
+            cur = par_r[id(cur)]
+            if cur.get("k") == "If":
+                cond = cur
+                break
+        ct = show(strip(cond["cond"])) if cond is not None else None
+        m_ = re.fullmatch(r"\(!(\w+)(\.operator bool\(\)|\.is_open\(\)|\.good\(\))?\)|(\w+)\.fail\(\)", ct or "")
+        var = (m_.group(1) or m_.group(3)) if m_ else None
+        dv = [v for d in walk(rd["body"]) if d["k"] == "Decl" for v in d["vars"] if v["n"] == var and re.search(r"ifstream|fstream", v.get("t") or "")]
+        if not (m_ and dv):
+            okn = False
+            chk.violation(r_ex, "read:null", "Open::Restart::read returns the null pointer (= no such file) under `%s`; it may do so only when opening the file as a stream failed" % ct, rd["file"], n["l"])
+    chk.instance(r_ex, "read:null", sample=dict(null_returns=len(nulls), under_open_test=okn))
+    if not nulls:
+        chk.violation(r_ex, "read:null", "Open::Restart::read no longer has a 'file cannot be opened -> null' exit", rd["file"], rd["l"])
+    builds = [n for n in walk(rd["body"]) if n.get("k") in ("New", "Call", "Ctor") and "ERst" in (n.get("t") or n.get("fn") or "")]
+    chk.instance(r_ex, "read:index", sample=dict(index_built=len(builds)))
+    if not builds:
+        chk.violation(r_ex, "read:index", "Open::Restart::read no longer builds the ERst index of the existing file", rd["file"], rd["l"])
+
     from verif import narrow
     narrow.run_offwidth(chk, "C08")
 
